@@ -15,6 +15,15 @@ pub enum Built {
     Panic(String),
 }
 
+impl Built {
+    pub fn ok_regex(self) -> Option<Regex> {
+        match self {
+            Built::Ok(r) => Some(r),
+            _ => None,
+        }
+    }
+}
+
 pub fn panic_msg(e: Box<dyn std::any::Any + Send>) -> String {
     if let Some(s) = e.downcast_ref::<&str>() {
         s.to_string()
